@@ -216,7 +216,7 @@ func init() {
 	defer func() {
 		// the many-child-maps scenario (see props_crash.go): on the unchanged tree its commit is refused (a C03
 		// finding, not a C07 matter); should the encoder ever accept it, the content read back must be right
-		Props["C07"].Directed = append(Props["C07"].Directed, directedManyChildMaps)
+		Props["C07"].Directed = append(Props["C07"].Directed, directedManyChildMaps, directedManyCompactMaps)
 	}()
 	regProp("C05", "exploration",
 		"size-adversarial histories (boundary-biased element sizes, grow/shrink at both ends and in the middle, nested and large values, collision-prone digesters) at swarm slab sizes; after every stride the view a commit would leave is parsed by the independent register parser and checked for size band, per-element limits, child headers, sibling links and digest order, and - model-free, on the live containers - every element a traversal yields must be what the lookup by its position / key returns; non-trivial = a tree of height >= 2 with >= 3 slabs was checked and both insertions and removals happened; distinct by trace hash",
